@@ -11,6 +11,10 @@ HYPERBAND = ("suite_hyperband", {"n": {"quick": 100, "thorough": 2500}})
 LIVENESS = ("suite_liveness", {"n": {"quick": 120, "thorough": 2500}})
 ORACLE_SMALL = ("suite_oracle", {"n": {"quick": 120, "thorough": 2000}})
 
+TRANSFORMS = ("suite_transforms", {"n": {"quick": 500, "thorough": 10000}})
+METRICS = ("suite_metrics", {"n": {"quick": 600, "thorough": 12000}})
+CHECKPOINT = ("suite_checkpoint", {"n": {"quick": 4, "thorough": 50}})
+
 NOT_CLAIMED = {}
 
 CORE_NOTE = ("Trusted: Lean kernel; the hand-written generic oracle model (Ktm/Core.lean: create/update/endT over an arbitrary "
@@ -88,4 +92,33 @@ PROPS = {
                           "implementation by the `liveness` suite (fair random schedulers incl. all-fail patterns and empty initial spaces) with explicit "
                           "bounds, not proved as a theorem; the IDLE / STOPPED decision logic is proved. " + CORE_NOTE,
             "assumptions": ["fairness = every started trial is eventually ended (scheduler of the suite)"]},
+    "C14": {"suites": [TRANSFORMS],
+            "level_text": "Theorems (Ktm/Props/C14.lean), exact arithmetic: prob->index always in range, index->prob->index = id, the stepped linear "
+                          "lattice is exactly {min + k*step <= max} with max included iff on the lattice, every probability maps into it and every "
+                          "lattice value survives value->prob->value; the log / reverse_log enumeration is an initial segment of {min*step^i <= max} "
+                          "ending at the first index beyond max; Choice / Boolean round trips.",
+            "level_note": "The model works on the exact decimals the user wrote (scaled to integers), the code on doubles: float rounding of lattice values, "
+                          "math.pow / math.log in the log modes and the continuous (step-less) log transforms are validated on every generated case "
+                          "(tolerance 1e-9, plus membership in [min, max]) but not proved. At a bucket boundary (prob*n within 1e-9 of an integer) "
+                          "either neighbouring index is accepted (the code divides by 1/n). MT19937 is trusted for 'seeded sampling is deterministic' "
+                          "(checked by sampling twice).",
+            "assumptions": ["IEEE rounding is not modelled; decimal inputs"]},
+    "C18": {"suites": [METRICS],
+            "level_text": "Theorems (Ktm/Props/C18.lean): reports recorded per step with repeated steps merged, best value = optimum of the non-NaN "
+                          "per-step means (NaN iff all NaN), best step attains it, histories sorted by step and a permutation of the records, "
+                          "multi-objective = sum(min) - sum(max), per-execution best epoch = first epoch attaining the best, list objective = mean of "
+                          "per-execution bests.",
+            "level_note": "Values are NaN / +-inf / exact rationals with numpy mean / nanmin / nanmax semantics (assumed for numpy); the implementation's "
+                          "doubles are compared with the exact rationals up to 1e-12. History curves in the conversion model are finite integers "
+                          "(scaled). Keras History objects are constructed directly.",
+            "assumptions": ["numpy mean/nanmin/nanmax semantics"]},
+    "C20": {"suites": [CHECKPOINT, METRICS],
+            "level_text": "Theorems (Ktm/Props/C20.lean): the shared SaveBestEpoch callback's last write is the first epoch, in execution order, "
+                          "attaining the best objective over all executions (ties / plateaus never move it); for one execution this is the best step "
+                          "and value reported to the oracle; a promoted Hyperband trial's epoch interval is well-formed and ends at max_epochs.",
+            "level_note": "partial: only the selection logic is proved. That the checkpoint file holds those weights, that get_best_models returns them in "
+                          "rank order and that a promoted trial starts from its parent's kept weights and trains exactly [initial_epoch, epochs) "
+                          "is Keras training + weight-file I/O, validated end to end on real searches by the `checkpoint` suite (weights recorded "
+                          "per epoch by a user callback and compared bit for bit), not proved.",
+            "assumptions": ["Keras fit / save_weights / load_weights"]},
 }
